@@ -28,6 +28,49 @@ ASSUMPTIONS = ["std::hash<std::string> and operator== on std::string are consist
 FIELDS = ("Oomd::CgroupPath::cgroup_path_", "Oomd::CgroupPath::cgroup_fs_")
 
 
+def pattern_match_rule(ctx):
+    """CgroupPath::hasDescendantWithPrefixMatching decides component-wise (shared by C16 and C07: which prekill hook matches the victim)."""
+    P, cg = ctx.prog, ctx.cg
+    # ---- (4) pattern match decided component-wise
+    hm = ctx.fn1("Oomd::CgroupPath::hasDescendantWithPrefixMatching")
+    ctx.anchor(hm, "pattern")
+    fh = Flow(P, hm, cg=cg)
+    other = sorted({n_.get("qname", "").split("::")[-1] for n_ in hm.nodes if n_["k"] == "member" and n_.get("dk") == "field" and n_.get("qname") != "Oomd::CgroupPath::cgroup_path_"})
+    strcalls = [hm.text(i) for i in hm.calls("CgroupPath::absolutePath", "CgroupPath::relativePath")]
+    ctx.check(not other and not strcalls, "pattern-match:reads-components-only", "field-read", hm.loc(),
+              "the pattern match reads only the component vectors of path and pattern ('*' can only stand for a whole component)",
+              "the pattern match reads %s: a decision on the joined strings has no component boundaries (web.service2 would match web.service)" % (other + strcalls))
+    for r in returns(hm):
+        t = ret_text(hm, r)
+        g = fh.guards(r)
+        if t == "false":
+            IDX = r"(\w+)"
+            def m_any(pats, pol):
+                out = set()
+                for k, p in g:
+                    if p is pol:
+                        for pat in pats:
+                            mm = re.match(pat, k)
+                            if mm:
+                                out.add(mm.group(1))
+                return out
+            star = m_any([r'^\("\*" == pattern\.cgroup_path_\[%s\]\)$' % IDX, r'^\(pattern\.cgroup_path_\[%s\] == "\*"\)$' % IDX], False)
+            diff = m_any([r"^\(pattern\.cgroup_path_\[%s\] == this->cgroup_path_\[\1\]\)$" % IDX, r"^\(this->cgroup_path_\[%s\] == pattern\.cgroup_path_\[\1\]\)$" % IDX], False) | \
+                m_any([r"^\(pattern\.cgroup_path_\[%s\] != this->cgroup_path_\[\1\]\)$" % IDX, r"^\(this->cgroup_path_\[%s\] != pattern\.cgroup_path_\[\1\]\)$" % IDX], True)
+            inb = m_any([r"^\(%s < .+\)$" % IDX], True)
+            ctx.check(bool(star & diff & inb), "pattern-match:false-only-on-component-mismatch", "return_table", hm.loc(r),
+                      "false only when a common component differs and the pattern's component is not '*'", "false returned under %s" % sorted(g, key=str))
+        else:
+            ctx.check(t == "true" and any(p is False and re.match(r"^\(\w+ < .+\)$", k) for k, p in g), "pattern-match:true-after-all-common-components", "return_table", hm.loc(r),
+                      "true once all common components matched", "returns %s under %s" % (t, sorted(g, key=str)))
+    Xh = Expander(P, hm)
+    lh = [l for l in loops(hm) if l["stmt"] is not None]
+    hdr = Xh(hm.nodes[lh[0]["stmt"]]["c"]) if len(lh) == 1 and "c" in hm.nodes[lh[0]["stmt"]] else "?"
+    ctx.check(re.match(r"^\((?:var:)?\w+ < std::min\((?:this->cgroup_path_\.size\(\), (?:param:)?pattern\.cgroup_path_\.size\(\)|(?:param:)?pattern\.cgroup_path_\.size\(\), this->cgroup_path_\.size\(\))\)\)$", hdr) is not None,
+              "pattern-match:over-common-prefix", "loop-shape", hm.loc(), "components are compared over the common prefix length (ancestor / descendant cases fall out as true)",
+              "loop bound is " + hdr)
+
+
 def run(ctx):
     P, cg = ctx.prog, ctx.cg
     # precondition: plain getters
@@ -130,44 +173,7 @@ def run(ctx):
     reads = {n.get("qname") for n in rcf.nodes if n["k"] == "member"}
     ctx.check(bool(wa) and bool(wr) and set(FIELDS) <= reads, "recompute-rebuilds-both-caches", "field-write", rcf.loc(), "recomputeReadCache rebuilds both caches from the components and the root",
               "recomputeReadCache does not rebuild both caches from cgroup_path_ and cgroup_fs_")
-    # ---- (4) pattern match decided component-wise
-    hm = ctx.fn1("Oomd::CgroupPath::hasDescendantWithPrefixMatching")
-    ctx.anchor(hm, "pattern")
-    fh = Flow(P, hm, cg=cg)
-    other = sorted({n_.get("qname", "").split("::")[-1] for n_ in hm.nodes if n_["k"] == "member" and n_.get("dk") == "field" and n_.get("qname") != "Oomd::CgroupPath::cgroup_path_"})
-    strcalls = [hm.text(i) for i in hm.calls("CgroupPath::absolutePath", "CgroupPath::relativePath")]
-    ctx.check(not other and not strcalls, "pattern-match:reads-components-only", "field-read", hm.loc(),
-              "the pattern match reads only the component vectors of path and pattern ('*' can only stand for a whole component)",
-              "the pattern match reads %s: a decision on the joined strings has no component boundaries (web.service2 would match web.service)" % (other + strcalls))
-    for r in returns(hm):
-        t = ret_text(hm, r)
-        g = fh.guards(r)
-        if t == "false":
-            IDX = r"(\w+)"
-            def m_any(pats, pol):
-                out = set()
-                for k, p in g:
-                    if p is pol:
-                        for pat in pats:
-                            mm = re.match(pat, k)
-                            if mm:
-                                out.add(mm.group(1))
-                return out
-            star = m_any([r'^\("\*" == pattern\.cgroup_path_\[%s\]\)$' % IDX, r'^\(pattern\.cgroup_path_\[%s\] == "\*"\)$' % IDX], False)
-            diff = m_any([r"^\(pattern\.cgroup_path_\[%s\] == this->cgroup_path_\[\1\]\)$" % IDX, r"^\(this->cgroup_path_\[%s\] == pattern\.cgroup_path_\[\1\]\)$" % IDX], False) | \
-                m_any([r"^\(pattern\.cgroup_path_\[%s\] != this->cgroup_path_\[\1\]\)$" % IDX, r"^\(this->cgroup_path_\[%s\] != pattern\.cgroup_path_\[\1\]\)$" % IDX], True)
-            inb = m_any([r"^\(%s < .+\)$" % IDX], True)
-            ctx.check(bool(star & diff & inb), "pattern-match:false-only-on-component-mismatch", "return_table", hm.loc(r),
-                      "false only when a common component differs and the pattern's component is not '*'", "false returned under %s" % sorted(g, key=str))
-        else:
-            ctx.check(t == "true" and any(p is False and re.match(r"^\(\w+ < .+\)$", k) for k, p in g), "pattern-match:true-after-all-common-components", "return_table", hm.loc(r),
-                      "true once all common components matched", "returns %s under %s" % (t, sorted(g, key=str)))
-    Xh = Expander(P, hm)
-    lh = [l for l in loops(hm) if l["stmt"] is not None]
-    hdr = Xh(hm.nodes[lh[0]["stmt"]]["c"]) if len(lh) == 1 and "c" in hm.nodes[lh[0]["stmt"]] else "?"
-    ctx.check(re.match(r"^\((?:var:)?\w+ < std::min\((?:this->cgroup_path_\.size\(\), (?:param:)?pattern\.cgroup_path_\.size\(\)|(?:param:)?pattern\.cgroup_path_\.size\(\), this->cgroup_path_\.size\(\))\)\)$", hdr) is not None,
-              "pattern-match:over-common-prefix", "loop-shape", hm.loc(), "components are compared over the common prefix length (ancestor / descendant cases fall out as true)",
-              "loop bound is " + hdr)
+    pattern_match_rule(ctx)
     # ---- (6) canonical components: every component ever stored comes out of Util::split(text, '/') (never empty, never containing '/')
     n_cw = 0
     for f in sorted(P.fns.values(), key=lambda x: x.line):
